@@ -345,3 +345,33 @@ V("c02-chop-position-zero", "C02", WR, "chop_cells(word, width, position=line_po
 V("c02-chop-ge", "C02", CE, "        if total_size + size > max_size:", "        if total_size + size >= max_size:", "R2.5")
 V("c02-rstrip-end-all-excess", "C02", TX, "                self.right_crop(min(whitespace_count, excess))", "                self.right_crop(excess)", "R2.6")
 V("c02-benign-alias", "C02", WR, "    _cell_len = cell_len\n", "    _cell_len = cell_len\n    _unused = width\n", None)
+
+# ---- round-2 seed-driven rules -------------------------------------------------
+BARF = "rich/bar.py"
+V("c08-bar-begin-round", "C08", BARF, "        prefix_complete_eights = int(width * 8 * self.begin / self.size)", "        prefix_complete_eights = round(width * 8 * self.begin / self.size)", "R8.10")
+V("c08-bar-width-uncapped", "C08", BARF, "        width = min(self.width or options.max_width, options.max_width)", "        width = self.width or options.max_width", "R8.10")
+V("c08-bar-suffix-off", "C08", BARF, '        suffix = " " * (width - len(body))', '        suffix = " " * (width - len(body) + 1)', "R8.10")
+V("c08-bar-mod-7", "C08", BARF, "        body_eights_count = body_complete_eights % 8", "        body_eights_count = body_complete_eights % 7", "R8.10")
+V("c01-bar-begin-round", "C01", BARF, "        prefix_complete_eights = int(width * 8 * self.begin / self.size)", "        prefix_complete_eights = round(width * 8 * self.begin / self.size)", "R1.5")
+V("c08-bar-benign-rename", "C08", BARF,
+  "        prefix_complete_eights = int(width * 8 * self.begin / self.size)\n        prefix_bar_count = prefix_complete_eights // 8\n        prefix_eights_count = prefix_complete_eights % 8\n",
+  "        p8 = int(width * 8 * self.begin / self.size)\n        prefix_bar_count, prefix_eights_count = divmod(p8, 8)\n", None)
+V("c02-truncate-outside-loop", "C02", "rich/text.py", "            for line in new_lines:\n                line.truncate(width, overflow=wrap_overflow)\n            lines.extend(new_lines)\n        return lines", "            lines.extend(new_lines)\n        for line in new_lines:\n            line.truncate(width, overflow=wrap_overflow)\n        return lines", "R2.2")
+V("c01-truncate-outside-loop", "C01", "rich/text.py", "            for line in new_lines:\n                line.truncate(width, overflow=wrap_overflow)\n            lines.extend(new_lines)\n        return lines", "            lines.extend(new_lines)\n        for line in new_lines:\n            line.truncate(width, overflow=wrap_overflow)\n        return lines", "R1.4b")
+V("c12-percentage-mul-first", "C12", PR, "        completed = (self.completed / self.total) * 100.0\n        completed = min(100.0", "        completed = (self.completed * 100.0) / self.total\n        completed = min(100.0", "R12.7")
+V("c12-bar-percentage-clamp-99", "C12", "rich/progress_bar.py", "        completed = min(100, max(0.0, completed))", "        completed = min(99, max(0.0, completed))", "R12.7")
+V("c12-benign-percentage-reordered", "C12", PR, "        completed = (self.completed / self.total) * 100.0\n        completed = min(100.0, max(0.0, completed))\n        return completed", "        ratio = 100.0 * (self.completed / self.total)\n        return max(0.0, min(100.0, ratio))", None)
+V("c15-export-text-early-return", "C15", "rich/console.py", "                text = \"\".join(\n                    segment.text\n                    for segment in self._record_buffer\n                    if not segment.is_control\n                )\n            if clear:", "                return \"\".join(\n                    segment.text\n                    for segment in self._record_buffer\n                    if not segment.is_control\n                )\n            if clear:", "R15.2")
+V("c16-check-length-children", "C16", "rich/pretty.py", "        for token in self.iter_tokens():\n            total_length += cell_len(token)", "        for token in (self.children or ()):\n            total_length += cell_len(str(token))", "R16.5")
+V("c17-guides-lstrip", "C17", "rich/text.py", "            indent = match.group(1)\n            full_indents, remaining_space = divmod(len(indent), _indent_size)", "            indent = line.plain[: len(line.plain) - len(line.plain.lstrip())]\n            full_indents, remaining_space = divmod(len(indent), _indent_size)", "R17.7")
+V("c17-guides-regex-ws", "C17", "rich/text.py", '        re_indent = re.compile(r"^( *)(.*)$")', '        re_indent = re.compile(r"^(\\s*)(.*)$")', "R17.7")
+V("c19-fileproxy-class-buffer", "C19", "rich/file_proxy.py", "        self.__buffer: List[str] = []\n", "", "R19.9")
+CONS = "rich/console.py"
+V("c10-progress-stop-not-idempotent", "C10", PR, "            if not self._started:\n                return\n            self._started = False\n            try:\n                if self.auto_refresh and self._refresh_thread is not None:\n                    self._refresh_thread.stop()\n                self.refresh()",
+  "            if not self._started:\n                pass\n            self._started = False\n            try:\n                if self.auto_refresh and self._refresh_thread is not None:\n                    self._refresh_thread.stop()\n                self.refresh()", "R10.5")
+V("c10-log-lazy-render", "C10", CONS, "            for renderable in renderables:\n                extend(render(renderable, render_options))\n            buffer_extend = self._buffer.extend",
+  "            new_segments = (s for renderable in renderables for s in render(renderable, render_options))\n            buffer_extend = self._buffer.extend", "R10.6")
+V("c10-benign-log-listcomp", "C10", CONS, "            for renderable in renderables:\n                extend(render(renderable, render_options))\n            buffer_extend = self._buffer.extend",
+  "            new_segments = [s for renderable in renderables for s in render(renderable, render_options)]\n            buffer_extend = self._buffer.extend", None)
+V("c10-benign-stop-nested", "C10", "rich/live.py", "            if not self._started:\n                return\n            self._started = False\n            try:\n                if self.auto_refresh and self._refresh_thread is not None:\n                    self._refresh_thread.stop()\n                # allow it",
+  "            started = self._started\n            if not self._started:\n                return\n            self._started = False\n            try:\n                if self.auto_refresh and self._refresh_thread is not None:\n                    self._refresh_thread.stop()\n                # allow it", None)
